@@ -22,6 +22,7 @@ mod rng;
 mod runner;
 mod scn;
 mod shrink;
+mod smlgen;
 mod smlref;
 
 use crate::core::Tier;
